@@ -69,7 +69,7 @@ PROPS = {
     "C13": {"jobs": [
         rapid("C13a", 1500, 6000, shrinktime="15s"),
         rapid("C13b", 1500, 8000, shrinktime="15s", race_shards=1),
-        rapid("C13c", 12, 40, shards=1),
+        rapid("C13c", 24, 80, shards=1),
     ]},
     "C19": {"jobs": [
         rapid("C19a", 800, 4000, shrinktime="15s"),
